@@ -24,6 +24,8 @@ func runC02(c *Ctx) {
 	runC02Loop(c)
 	runC02Mat(c)
 	sharedDeclaredRules(c)
+	base(c, "STATE", "ALIAS", "TEXT")
+	runToStrCases(c, "C02-PATHKEY")
 	importRules(c, "C17", runC17, "C02-GROUP", "cross-field group clauses are one per violated group of one object and name every member by its object path (rules C17-KEY, C17-EVAL): members are registered under the walker's current path, not a type name", 5, ruleIn("C17-KEY", "C17-EVAL"))
 }
 
